@@ -136,7 +136,7 @@ def addr_distinct(p, q):
             return True
     elif p.cid is not None or q.cid is not None:
         f, o = (p, q) if p.cid is not None else (q, p)
-        if f.cid < o.lo:
+        if f.cid < o.lo or f.cid >= 10 ** 9:
             return True
         return False
     else:
